@@ -24,6 +24,10 @@ func init() {
 		"C19": "addbeforego: every go statement whose goroutine (including its deferred functions) calls WaitGroup.Done is dominated by a WaitGroup.Add in the same loop iteration (or by an Add of a non-constant amount before the loop).",
 		"C20": "zerostart: buildExonsFor rejects exactly when the exon set's Start() != 0. querypure: the region/coordinate queries of transcripts and genes (UTR5, UTR3, CDS, Exons, Introns, Orientation, Start, End, Len) and their same-receiver callees store into no receiver field.",
 	}
+	ic := " intervalcoherent: for every type of the property's packages with straight-line Start(), End() and Len() methods the symbolic linear forms satisfy End - Start - Len == 0."
+	for _, id := range []string{"C02", "C05", "C06", "C07", "C16", "C20"} {
+		extra[id] += ic
+	}
 	for id, s := range extra {
 		if p := props[id]; p != nil {
 			p.Explanation += " " + s
